@@ -11,7 +11,8 @@
 (*   GetGuardianSet(i)        Lk_Acquire, Lk_ReadIdx, Lk_ReadList,         *)
 (*                            Lk_Release, [Lk_Fetch, Ap_*, the reads again]*)
 (*   GetCurrentGuardianSet    the same reads with i := the index read      *)
-(*   updateGuardianSets(b)    Ap_Lock, Ap_SetIdx, Ap_Append, Ap_Unlock     *)
+(*   updateGuardianSets(b)    Ap_Lock, Ap_SetIdx (the "what is new" check  *)
+(*                            and the index), Ap_Append, Ap_Unlock         *)
 (*   Push(v)                  the lookup, Push_Verify, Push_Dedup,         *)
 (*                            Push_Enqueue, Push_Mark                      *)
 (*                                                                         *)
@@ -27,8 +28,12 @@
 (***************************************************************************)
 EXTENDS Integers, Sequences, FiniteSets, TLC, Quorum, SigVerify
 
-CONSTANTS Nil,      \* model value: "absent"
-          Locked    \* TRUE: lookups read under the lock (the design the property needs)
+CONSTANTS Nil,            \* model value: "absent"
+          Locked,         \* TRUE: lookups read under the lock (the design the property needs)
+          CheckUnderLock  \* TRUE: updateGuardianSets decides what is new inside the critical section that appends
+                          \* (the design the property needs); FALSE: check-then-act, the decision is taken from a
+                          \* snapshot before the lock (MC_Explorer_checkthenact_control.cfg: two appenders with
+                          \* overlapping batches then append the same sets twice and position # index)
 
 VARIABLES
   chain,    \* Seq([idx, keys])   every set that will ever exist; chain[i+1].idx = i
@@ -138,8 +143,16 @@ Lk_Fetch(p, ok) ==
 ---------------------------------------------------------------------------
 (* updateGuardianSets *)
 
+\* (check-then-act variant only) reads the index and decides, outside the lock, which sets of the batch are new
+Ap_Snapshot(p) ==
+    /\ ~CheckUnderLock
+    /\ Pr(p).pc = "ap1" /\ proc[p].lo <= proc[p].hi
+    /\ Set(p, IF proc[p].hi <= cur THEN [proc[p] EXCEPT !.pc = "ap5"] ELSE [proc[p] EXCEPT !.pc = "ap1s", !.k = cur])
+    /\ UNCHANGED <<chain, top, list, cur, lock, qcap, queue, marked, enq>>
+
 Ap_Lock(p) ==
-    /\ Pr(p).pc = "ap1"
+    /\ \/ Pr(p).pc = "ap1" /\ (CheckUnderLock \/ proc[p].lo > proc[p].hi)
+       \/ Pr(p).pc = "ap1s"
     /\ LET pr == proc[p] IN
        IF pr.lo > pr.hi                                \* len(guardianSets) == 0: returns before locking
        THEN Set(p, [pr EXCEPT !.pc = "ap5"]) /\ UNCHANGED lock
@@ -151,9 +164,9 @@ Ap_Lock(p) ==
 Ap_SetIdx(p) ==
     /\ Pr(p).pc = "ap2"
     /\ LET pr == proc[p] IN
-       IF pr.hi <= cur \/ pr.lo > cur + 1
+       IF CheckUnderLock /\ (pr.hi <= cur \/ pr.lo > cur + 1)
        THEN Set(p, [pr EXCEPT !.pc = "ap4"]) /\ UNCHANGED cur
-       ELSE Set(p, [pr EXCEPT !.pc = "ap3", !.k = cur]) /\ cur' = pr.hi
+       ELSE Set(p, [pr EXCEPT !.pc = "ap3", !.k = IF CheckUnderLock THEN cur ELSE @]) /\ cur' = pr.hi
     /\ UNCHANGED <<chain, top, list, lock, qcap, queue, marked, enq>>
 
 \* gs.guardianSetLists = append(gs.guardianSetLists, the new ones...)
@@ -236,7 +249,7 @@ PushRet(p) ==
 
 Internal(p) ==
     \/ Lk_Acquire(p) \/ Lk_ReadIdx(p) \/ Lk_ReadList(p) \/ Lk_Release(p) \/ (\E ok \in BOOLEAN : Lk_Fetch(p, ok))
-    \/ Ap_Lock(p) \/ Ap_SetIdx(p) \/ Ap_Append(p) \/ Ap_Unlock(p) \/ Ap_Done(p)
+    \/ Ap_Snapshot(p) \/ Ap_Lock(p) \/ Ap_SetIdx(p) \/ Ap_Append(p) \/ Ap_Unlock(p) \/ Ap_Done(p)
     \/ Push_Verify(p) \/ Push_Dedup(p) \/ Push_Enqueue(p) \/ Push_Mark(p)
 
 ---------------------------------------------------------------------------
